@@ -103,6 +103,11 @@ def make_namespace(T):
         await asyncio.sleep(0)
         return V(k)
 
+    def rze(k, src):
+        """evaluates source that fails: a SyntaxError with location info, or an AttributeError/NameError with a long message"""
+        T.append(k)
+        return eval(src)
+
     def rz(k, exc, *toks):
         T.append(k)
         for t in toks:
@@ -115,7 +120,7 @@ def make_namespace(T):
     def ctx():
         yield
 
-    return {'T': T, 'p': p, 'v': v, 'bad': bad, 'aw': aw, 'ap': ap, 'actx': actx, 'rz': rz, 'pd': pd, 'ctx': ctx, 'xdvhelp': help_,
+    return {'T': T, 'p': p, 'v': v, 'bad': bad, 'aw': aw, 'ap': ap, 'actx': actx, 'rz': rz, 'rze': rze, 'pd': pd, 'ctx': ctx, 'xdvhelp': help_,
             'ExitTestException': exceptions.ExitTestException}
 
 
@@ -212,7 +217,10 @@ def render_body(k, part, rot):
                  [['x%d = p(%d)' % (k, k)], ['y%d = print(%s)' % (k, o1)]],
                  [['x%d = p(%d,' % (k, k), '       %s)' % o1]],
                  [['if True:', '    x%d = p(%d, %s)' % (k, k, o1)]],
-                 [['@pd(%d, %s)' % (k, o1), 'def f%d():' % k, '    pass']]]
+                 [['@pd(%d, %s)' % (k, o1), 'def f%d():' % k, '    pass']],
+                 # a comment line INSIDE the statement does not make a trailing directive a block directive
+                 [['x%d = p(%d,' % (k, k), '       # a plain comment between the arguments', '       %s)' % o1]],
+                 [['for _i in [0]:', '    # a plain comment in the body', '    x%d = p(%d, %s)' % (k, k, o1)]]]
         if single:
             forms = [f for f in forms if len(f) == 1]
         return forms[rot % len(forms)]
@@ -310,6 +318,8 @@ def render_want(k, part, want_tokens, prog, rot):
             lines += ['    ...']
         lines += last.split('\n')
         return lines
+    if w == 'c_replace' and rot % 5 == 0:
+        return ['<BLANKLINE>'] * (1 + rot % 2)        # a wrong want that normalises to nothing
     if w == 'nontb' and rot % 3:
         return [tok_text(t, prog) for t in want_tokens] + ['second line of text %d' % k] * (rot % 3)
     return [tok_text(t, prog) for t in want_tokens]
